@@ -136,3 +136,40 @@ theorem nonvacuous_eval :
   decide
 
 end Ytk.C10
+
+/-! ## gap7a: the hypotheses of `eval_spec` and `string_parse` are needed (proved counterexamples) -/
+namespace Ytk.C10
+open Ytk.Ptr
+
+/-- `tokOk` cannot be dropped from `eval_spec`: (a) the non-canonical numeral `01` is accepted as index 1
+    by `Path.Eval` (strconv.Atoi) while RFC 6901 has no such array index; (b) `+1` likewise; (c) under a
+    container a token ending in an index group (`k[0]`) is read by `Child` as list access into member `k`,
+    while the reference looks for a member literally named `k[0]`. -/
+theorem eval_spec_needs_tokOk_counterexample :
+    (eval ["01"] (.list [.leaf ⟨"int", "0"⟩, .leaf ⟨"int", "1"⟩])).2 = some (.leaf ⟨"int", "1"⟩) ∧
+    getTok (.list [.leaf ⟨"int", "0"⟩, .leaf ⟨"int", "1"⟩]) ["01"] = none ∧
+    (eval ["+1"] (.list [.leaf ⟨"int", "0"⟩, .leaf ⟨"int", "1"⟩])).2 = some (.leaf ⟨"int", "1"⟩) ∧
+    getTok (.list [.leaf ⟨"int", "0"⟩, .leaf ⟨"int", "1"⟩]) ["+1"] = none ∧
+    (eval ["k[0]"] (.cont [("k", .list [.leaf ⟨"int", "7"⟩])])).2 = some (.leaf ⟨"int", "7"⟩) ∧
+    getTok (.cont [("k", .list [.leaf ⟨"int", "7"⟩])]) ["k[0]"] = none ∧
+    tokOk "01" = false ∧ tokOk "+1" = false ∧ tokOk "k[0]" = false := by
+  decide +kernel
+
+/-- The grammar hypothesis of `string_parse` cannot be dropped: `/~2` and `/a~` parse (ParsePath keeps a
+    `~` that is not followed by `0`/`1` literally, never an error) but serialise to a different string. -/
+theorem string_parse_needs_grammar_counterexample :
+    parseS "/~2" = some ["~2"] ∧ stringS ["~2"] = "/~02" ∧ rfc6901 "/~2".toList = false ∧
+    parseS "/a~" = some ["a~"] ∧ stringS ["a~"] = "/a~0" ∧ rfc6901 "/a~".toList = false := by
+  decide +kernel
+
+/-- `eval_spec` and `eval_trail` together, as the statement reads: on in-scope tokens Eval returns the
+    addressed node together with a trail whose last element is that node, or no node exactly when the
+    reference walk finds a step missing. -/
+theorem eval_node_and_trail (p : Path) (d : Node) (h : ∀ t ∈ p, tokOk t = true) :
+    (∀ n, getTok d p = some n → (eval p d).2 = some n ∧ (eval p d).1.getLast? = some n) ∧
+    (getTok d p = none → (eval p d).2 = none) := by
+  refine ⟨fun n hn => ?_, fun hn => by rw [eval_spec p d h, hn]⟩
+  have h2 : (eval p d).2 = some n := by rw [eval_spec p d h, hn]
+  exact ⟨h2, eval_trail p d n h2⟩
+
+end Ytk.C10
